@@ -1132,6 +1132,12 @@ func verifyPDR(pdr pdr) error {
 		return ErrUnsupported("precedence greater than 65535", pdr.precedence)
 	}
 
+	// The applications table has range/ternary fields: its entries need a
+	// non-zero priority, and the priority is 65535 - precedence.
+	if pdr.precedence == math.MaxUint16 && !pdr.IsAppFilterEmpty() {
+		return ErrUnsupported("precedence 65535 for a PDR with an application filter", pdr.precedence)
+	}
+
 	return nil
 }
 
